@@ -1,42 +1,33 @@
 package main
 
 import (
-	"bytes"
-	"crypto"
-	"encoding/binary"
 	"fmt"
 
-	"github.com/foxboron/go-uefi/authenticode"
-	"verif/gen/pegen"
-	"verif/ref/refpe"
+	"github.com/foxboron/go-uefi/efi"
+	efifs "github.com/foxboron/go-uefi/efi/fs"
+	"github.com/spf13/afero"
+	"verif/gen/dpgen"
 )
 
 func main() {
-	for _, l := range []pegen.Layout{
-		{PE32Plus: true, Lfanew: 0x40, Secs: []pegen.Sec{{RawSize: 8}, {RawSize: 13}}, Trailing: 3},
-		{PE32Plus: true, Lfanew: 0x40, NumRva: 5, Trailing: 24},
-	} {
-		img := pegen.Build(l)
-		im, err := refpe.Parse(img)
-		if err != nil {
-			fmt.Println("ref parse", err)
-			continue
-		}
-		dd4end := im.CertDirOff + 8
-		soh := im.OptOff + 60
-		fmt.Printf("SizeOfHeaders=%d dd4end=%d sections=%d\n", binary.LittleEndian.Uint32(img[soh:]), dd4end, len(im.Sections))
-		binary.LittleEndian.PutUint32(img[soh:], uint32(dd4end))
-		want, _, rerr := refpe.Digest(img)
-		p, err := authenticode.Parse(bytes.NewReader(img))
-		if err != nil {
-			fmt.Println("lib parse error:", err, "ref:", rerr)
-			continue
-		}
-		got := p.Hash(crypto.SHA256)
-		fmt.Printf("ref err=%v equal=%v\n", rerr, bytes.Equal(got, want))
-		// flip last byte
-		img[len(img)-1] ^= 1
-		p2, _ := authenticode.Parse(bytes.NewReader(img))
-		fmt.Printf("digest changes when the last byte flips: %v\n", !bytes.Equal(p2.Hash(crypto.SHA256), got))
+	fs := afero.NewMemMapFs()
+	g := "8be4df61-93ca-11d2-aa0d-00e098032b8c"
+	afero.WriteFile(fs, "/sys/firmware/efi/efivars/BootOrder-"+g, []byte{7, 0, 0, 0, 0x1A, 0x00, 0x01, 0xB0}, 0644)
+	lo := dpgen.LoadOption{Attributes: 1, Description: "x", Nodes: []dpgen.Node{{Kind: "PCI", Function: 1, Device: 2}}}.Bytes()
+	afero.WriteFile(fs, "/sys/firmware/efi/efivars/Boot001A-"+g, append([]byte{7, 0, 0, 0}, lo...), 0644)
+	afero.WriteFile(fs, "/sys/firmware/efi/efivars/BootB001-"+g, append([]byte{7, 0, 0, 0}, lo...), 0644)
+	efifs.SetFS(fs)
+	names := efi.GetBootOrder()
+	fmt.Printf("%q\n", names)
+	for _, n := range names {
+		func() {
+			defer func() {
+				if r := recover(); r != nil {
+					fmt.Println("panic:", r)
+				}
+			}()
+			o, err := efi.GetBootEntry(n)
+			fmt.Println(o != nil, err)
+		}()
 	}
 }
